@@ -6,6 +6,7 @@ UNITS = {
     "disk": dict(engine="verus", serves=["C19"]),
     "provision": dict(engine="verus", serves=["C16"]),
     "telemetry": dict(engine="verus", serves=["C18"]),
+    "setup": dict(engine="verus", serves=["C17"]),
     "authorizer": dict(engine="verus", serves=["C03", "C11", "C01"]),
 }
 
@@ -116,6 +117,15 @@ PROPERTIES["C18"] = dict(
                "send_telemetry_data; file-system faults (a refused removal makes the next scan re-read the file); the usize overflow of the "
                "log-only event counter (E9, C13 scope); process_events / loop_reader (callers) are not under contract.",
     design_ref="DESIGN.md section 3 C18",
+    assumptions=[],
+)
+
+PROPERTIES["C17"] = dict(
+    units=["setup"],
+    technique="Verus contracts on the extracted real functions over an abstract file system + effect trace (ghost World threaded by E4); per-command refinement of spec operations; round-trip and history lemmas",
+    level_text="Deductive proof (Verus/Z3), all file contents, all setup directories, all command sequences: every function of proxy_agent_setup's linux.rs/backup.rs/setup.rs/running.rs, main.rs's helpers and its five command arms (E5 slices), proxy_agent_shared service.rs and linux_service.rs, extracted verbatim, are proved against full-frame contracts; each arm refines step_ok(cmd); restore(install(backup(fs))) is proved byte-identical to fs on the four system paths, no path outside {system locations, backup folder} ever changes (also under I/O faults), and no system file changes while the service is not stopped, install/restore ending with systemctl start.",
+    level_note="Trusted: Verus/Z3/rustc; assumed contracts of fs::copy/remove_file/remove_dir_all/Path::exists/execute_command (spec.rs *_post) and PathBuf::from/join as component arithmetic; paths = component sequences (no symlinks/..); systemctl is an opaque trace event (its own symlink bookkeeping and exit status not modelled). Positive clauses hold for fault-free runs and normal return (process::exit/panic paths make no claim); round trip requires all four system files present before the upgrade and the setup dir not containing a system file. Not covered: clap parsing, extension driver service_main.rs, Windows.",
+    design_ref="DESIGN.md section 3 C17",
     assumptions=[],
 )
 
